@@ -79,6 +79,34 @@ class Rec:
         self.total[i] = nsteps
         self.done[i] = 0
         self.sections[i] = sections
+        self.files_seen = getattr(self, "files_seen", {})
+        self.files_seen[i] = {}        # file -> index of its (tentative) read step in self.sch, or None once final
+
+    # a file access behind a caching loader: the up-to-date check (a stat) is the moment the cached content is
+    # validated -- it counts as the read unless an open() of the same file follows in the same call
+    def file_stat(self, i, f, upto):
+        seen = self.files_seen.setdefault(i, {})
+        if f in seen:
+            return
+        before = len(self.sch)
+        self.emit(i, upto=upto)
+        seen[f] = before if len(self.sch) > before else None
+
+    def file_open(self, i, f, upto):
+        seen = self.files_seen.setdefault(i, {})
+        idx = seen.get(f, "new")
+        if idx == "new":
+            self.emit(i, upto=upto)
+        elif idx is not None and idx < len(self.sch) and self.sch[idx] == i:
+            # retract the tentative step taken at the stat: the content is fetched now
+            del self.sch[idx]
+            self.done[i] -= 1
+            for j, d in self.files_seen.items():
+                for g, k in d.items():
+                    if k is not None and k > idx:
+                        d[g] = k - 1
+            self.emit(i, upto=upto)
+        seen[f] = None
 
     def emit_to(self, i, target):
         """emit steps of thread i until `target` steps of the current call are out"""
@@ -360,6 +388,9 @@ class CacheScenario(Scenario):
         if isinstance(lk, sched.CoopLock):
             lk.log = _LockLog(self.rec)
         self.cache._backing_cache = _GuardedBacking(self.cache._backing_cache, self.cache, self.rec)
+        # legal configuration "wrapper around wrapper": a component wraps the cache it is handed once more while
+        # the owner keeps using the inner wrapper; the LRU cache must still be guarded by the INNER lock
+        self.outer = VC.SynchronizedCache(self.cache) if self.case.get("nested") else None
 
     def do(self, call):
         before = self.rec.guard_violations
@@ -371,6 +402,8 @@ class CacheScenario(Scenario):
     def _do(self, call):
         op = call[0]
         c = self.cache
+        if self.outer is not None and (self.rec.me() or 0) % 2 == 1:
+            c = self.outer              # odd threads go through the outer wrapper
         key = CACHE_KEYS.get(call[1], call[1]) if len(call) > 1 else None
         if op == 0:
             v = c.get(key)
@@ -682,11 +715,17 @@ def yaml_text(pairs):
     return out or "{}\n"
 
 
+import vinegar.template.jinja as JJ
+
+
 class YamlScenario(Scenario):
-    files = [YT.__file__, VC.__file__]
+    files = [YT.__file__, VC.__file__, JJ.__file__]
     # yield points: the first lines of compile_data (where the per-call state is set up), every lock
     # operation of the item cache, and every file open (explicit yield in the wrapper below)
-    funcs = {"compile_data": 9}
+    # with the Jinja engine (case["engine"] == "jinja") the data files are read by the template loader: every
+    # line of its get_source / up-to-date callback is a yield point, so that a file can be replaced between any
+    # two of the loader's file-system accesses (stat, open, stat)
+    funcs = {"compile_data": 9, "get_source": None, "up_to_date_with_cache": None, "up_to_date_without_cache": None}
 
     def build(self):
         c = self.case
@@ -709,13 +748,26 @@ class YamlScenario(Scenario):
             if st is not None and not sc.free:
                 sc.yield_point(st)                             # a file may change right before it is read
             if i is not None and os.path.basename(str(path)) != "top.yaml":
-                rec.emit(i, upto=rec.total.get(i, 0) - 3)      # one file read = one step of the compile phase
+                # one file read = one step of the compile phase
+                rec.file_open(i, os.path.basename(str(path)), rec.total.get(i, 0) - 3)
             return open(path, *a, **k)
         self.patch.set(YT, "open", opener)
+        self.patch.set(JJ, "open", opener)
+        real_jj_vffp = JJ.version_for_file_path
+
+        def jj_vffp(path):
+            i = rec.me()
+            if i is not None and os.path.basename(str(path)) != "top.yaml":
+                rec.file_stat(i, os.path.basename(str(path)), rec.total.get(i, 0) - 3)
+            return real_jj_vffp(path)
+        self.patch.set(JJ, "version_for_file_path", jj_vffp)
         ysh = types.SimpleNamespace(**{k: getattr(YT.yaml, k) for k in dir(YT.yaml) if not k.startswith("__")})
         ysh.safe_load = _memo_safe_load
         self.patch.set(YT, "yaml", ysh)
-        self.src = YT.YamlTargetSource({"root_dir": self.tmp, "template": None, "cache_size": 8})
+        cfg = {"root_dir": self.tmp, "template": None, "cache_size": 8}
+        if c.get("engine") == "jinja":
+            cfg = {"root_dir": self.tmp, "cache_size": 8}          # the default engine, template cache enabled
+        self.src = YT.YamlTargetSource(cfg)
         lk = getattr(self.src._cache, "_lock", None)
         if isinstance(lk, sched.CoopLock):
             lk.log = _LockLog(self.rec)
@@ -862,6 +914,17 @@ class C19(Check):
         out.append(({"comp": "yaml", "table": ybs, "tree": [1, 0], "w0": [0, 0], "edits": [0], "calls": [[[0], [0]]]}, b2))
         out.append(({"comp": "yaml", "table": ybs, "tree": [1, 0], "w0": [0, 0], "edits": [0],
                      "calls": [[[0], [0]], [[0]]]}, b1))
+        # nested wrappers: SynchronizedCache(SynchronizedCache(LRUCache)), thread 0 through the inner wrapper,
+        # thread 1 through the outer one
+        out.append(({"comp": "cache", "cap": 2, "nested": 1,
+                     "calls": [[[1, 1, 1], [1, 2, 2], [1, 1, 5], [0, 2]], [[3, 2], [1, 3, 3], [0, 1], [4]]]}, b1))
+        out.append(({"comp": "cache", "cap": 1, "nested": 1, "calls": [[[1, 1, 1], [0, 1]], [[1, 2, 2]]]}, b2))
+        # the default Jinja engine in front of the data files (template cache): an edit between any two of the
+        # loader's file-system accesses
+        yj = {"comp": "yaml", "engine": "jinja", "table": [[[(1, 1), (2, 1)], [(1, 2)]], [[(3, 1)]]], "tree": [0, 1],
+              "w0": [0, 0], "edits": [0]}
+        out.append((dict(yj, calls=[[[0], [0]]]), b2))
+        out.append((dict(yj, calls=[[[0]], [[0]]]), b1))
         # value corners (falsy, sentinel-like, non-ASCII, nested, huge): every value position of the store and
         # of the cache; interleaving is irrelevant here, bound 1 suffices
         vs = list(range(7, len(STORE_VALUES)))
